@@ -735,3 +735,38 @@ def iteration_skips(cfg: CFG, loop: ast.For, pred: Callable[[Node], bool]) -> Op
                 if w is not None and x.id not in through:
                     return w
     return None
+
+
+def enclosing_loops(fn: ast.AST, inner: ast.AST) -> List[ast.For]:
+    """the For loops of `fn` that contain `inner`, outermost first (inner itself excluded)"""
+    out = []
+
+    def walk(node, chain):
+        for ch in ast.iter_child_nodes(node):
+            if ch is inner:
+                out.extend(chain)
+                return True
+            if isinstance(ch, (ast.FunctionDef, ast.AsyncFunctionDef, ast.Lambda, ast.ClassDef)):
+                continue
+            if walk(ch, chain + [ch] if isinstance(ch, ast.For) else chain):
+                return True
+        return False
+
+    walk(fn, [])
+    return out
+
+
+def loop_nest_skips(cfg: CFG, fn: ast.AST, inner: ast.For, pred: Callable[[Node], bool]):
+    """(loop, witness path) for the first loop of the nest around `inner` (outermost first, `inner` last) one of whose iterations can end
+    without reaching the next loop of the nest — or, for `inner` itself, without passing a node that satisfies `pred`; None when the
+    nest is total: every element of every level gets to the statement `pred` describes."""
+    chain = enclosing_loops(fn, inner) + [inner]
+    for i, lp in enumerate(chain):
+        if lp is inner:
+            w = iteration_skips(cfg, lp, pred)
+        else:
+            nxt = chain[i + 1]
+            w = iteration_skips(cfg, lp, lambda x, nxt=nxt: x.kind == "iter" and x.ast is nxt)
+        if w is not None:
+            return lp, w
+    return None
